@@ -83,6 +83,13 @@ class QueueSnapshotStore(SnapshotStore):
             if not thread.is_alive():
                 # Don't test this until after QUEUE_TIMEOUT has elapsed because
                 # thread may inadvertently report "is_alive()==False"
+                if snapshot is None:
+                    # The thread may have appended its snapshot and exited between
+                    # the timed get above and the liveness test: look once more
+                    try:
+                        ver, snapshot = self._q.get_nowait()
+                    except queue.Empty:
+                        pass
                 break
 
         if snapshot is not None and isinstance(snapshot, ExceptionWrapper):
